@@ -7,7 +7,8 @@ Case format (lines of integers; a statement's label is its position among the st
   [2, label, kind, def, uniq, out_ty, has_sc, nsc, sc...]      node statement
         kind 0 pull source, 1 compute, 2 sink, 3 push source, 4 feedback source, 5 feedback sink,
              6 nested_<SinkAndOutG>(x) (a sub-graph with a counting sink and x+1 as output), 7 try_except_<SinkG>(x),
-             8 wire<PlusOne>(x): a STATIC node (its instances share one process-wide runtime node type)
+             8 wire<PlusOne>(x): a STATIC node (its instances share one process-wide runtime node type),
+             9 wire<RsSink>(x): an OUTPUT-LESS static node that declares RecordableState (a journal-style sink)
   [3, label, slot, flags, ntp, tp..., SRC]                      one input of the node statement above
         flags bit 0: rank_dependency, bit 1: the source port carries the passive marker (`passive(port)`)
         SRC := 0 ref npath path.. | 1 ph npath path.. | 2 | 3 k SRC*k   (peered/delayed/null/structural)
@@ -554,6 +555,15 @@ def gen_program(rng, tier, prop):
             add({"t": "dep", "a": b, "b": a})     # later node after earlier node: consistent with the canonical order
             if rng.random() < 0.3:
                 add({"t": "dep", "a": b, "b": a})   # duplicate: de-duplicated by the code
+    # a recordable-state SINK wired twice with equal input (and once on another input): three nodes
+    if rng.random() < 0.2:
+        ints = [v for v in vals if ty[v] == 1 and prog[v]["kind"] in (0, 1)]
+        if ints:
+            x = rng.choice(ints)
+            for _ in range(rng.choice([2, 2, 3])):
+                add(_node(9, 0, 0, ins=[_inp(("p", x, ()))]))
+            if len(ints) > 1:
+                add(_node(9, 0, 0, ins=[_inp(("p", rng.choice([v for v in ints if v != x]), ()))]))
     # sub-graph wrappers around a sink, wired twice on the same input (and once on another)
     if "wrapper" in feats:
         ints = [v for v in vals if ty[v] == 1 and prog[v]["kind"] in (0, 1)]
@@ -824,6 +834,7 @@ def parse_out(out):
             d["stable"] = l[2]
         elif l[0] == 32:
             d["sink_body_runs"] = l[2]
+            d["rs_sink_runs"] = l[3] if len(l) > 3 else 0
         elif l[0] == 30:
             d["captured"] = tuple(l[2:])
         elif l[0] == 31:
@@ -1241,6 +1252,7 @@ def stats(case, out):
          "with_passive_marker": int(any(is_node(st) and any(i.get("passive") for i in st["ins"]) for st in prog)),
          "with_passive_marker_pair": int(bool(passive_pairs(prog))),
          "with_passive_on_late_producer": int(any(is_node(st) and any(i.get("passive") and i["rank"] and i["src"][0] == "d" for i in st["ins"]) for st in prog)),
+         "with_recordable_state_sink": int(any(is_node(st) and st["kind"] == 9 for st in prog)),
          "with_sink_wrapper": int(any(is_node(st) and st["kind"] in (6, 7) for st in prog)),
          "with_float_scalar": int(any(is_node(st) and st.get("fsc", -1) >= 0 for st in prog)),
          "with_signed_zero_pair": int(any(is_node(prog[a]) and is_node(prog[a + 1]) and {prog[a].get("fsc", -1), prog[a + 1].get("fsc", -1)} == {0, 1} for a in range(len(prog) - 1))),
